@@ -1,3 +1,4 @@
+import TemplVerif.Generated.Skeletons
 import TemplVerif.Model.Pool
 import TemplVerif.Proofs.Pool
 /-
@@ -34,5 +35,19 @@ example :
                                                      { ops := [.write [7, 8, 9]], writer := {} }] }
       [.get 0 0, .renderPut 0, .get 1 0, .renderPut 1]
     (w.threads.map (·.result.map (fun r => (r.1.accepted, r.2)))) = [some ([1, 2], .writer), some ([7, 8, 9], .none)] := by decide
+
+-- BEGIN transcription pins (written by tools/mkpins.py)
+/-- T1, transcription pins: the control structure and calls (extract/skeleton.go) of the functions whose models
+    were written by hand are the ones the models were transcribed from:
+      runtime/buffer.go Buffer.Reset
+      runtime/bufferpool.go GetBuffer
+      runtime/bufferpool.go ReleaseBuffer
+    A change of what one of them calls or how it branches breaks this theorem; the check then searches for a
+    failing input and reports either that or `no-failing-input-found`. -/
+theorem C14_transcription_pinned :
+    Generated.skel_buffer_Reset = 14868616085021877868 ∧
+    Generated.skel_pool_GetBuffer = 9516455317887111451 ∧
+    Generated.skel_pool_ReleaseBuffer = 6290261172033971419 := by decide
+-- END transcription pins
 
 end TemplVerif.Props.C14
